@@ -26,7 +26,9 @@ D3 == [D1 EXCEPT ![Len(D1)] = NthConcrete(Templates[LeafI].ph[Len(D1)], 2)]     
 NP == SubSeq(F1, 1, Len(F1) - 1)                                                  \* a level without path (state)
 Alphabet == {F1, F2, F3, D1, D2, D3, NP}
 Keys == {"k1", "k2"}
-Vals == {"x", "y", ""}      \* the empty string: a falsy value is still a value that was written
+\* the empty string: a falsy value is still a value that was written.  "~None", "~i1", "~True" stand for the JSON values
+\* null, 1 and true (harness/wire.py venc): None is a value that was written, and 1 and true are different values
+Vals == {"x", "", "~None", "~i1", "~True"}
 DataChoices == { <<>>, << <<"k1", "x">> >>, << <<"k1", "y">>, <<"k2", "x">> >> }
 
 \* evaluated once: the path of every Sid of the alphabet, and what every path of the closed world resolves to
